@@ -1028,7 +1028,9 @@ def expected_decl_panic(decls):
 def check_C18(ctx):
     rng = ctx.rng
     cases = []
-    onames = ["a", "b", "f", "force", "o", "out", "v", "x", "aa", "A", "1", "a-b", "_", "ab"]
+    # (the last three are not ASCII: one letter of two bytes -- a long option, since the library counts bytes --, two such
+    # letters, and an ASCII letter followed by one)
+    onames = ["a", "b", "f", "force", "o", "out", "v", "x", "aa", "A", "1", "a-b", "_", "ab", "\xc3\xa9", "\xc3\xa9\xc3\xb8", "a\xc3\xa9"]
     anames = ["SRC", "DST", "X", "src", "Src", "S R", "A1", "_A", "1A", "OPTIONS", "A-B", "A.B", "", "É", "A_", "ARG", "-", "--", "[A]", "A..."]
     for k_ in range(ctx.scale(4000, 40000)):
         decls = []
@@ -1080,6 +1082,11 @@ def check_C18(ctx):
             stats["clean"] += 1
             if a["outcome"][0] == "panic":
                 ctx.violation("declaration", "valid declarations %r panic: %r" % ([d["name"] for d in c["root"]["decls"]], a["outcome"]), case=c)
+            elif c["argv"] and not accepted(a) and a["outcome"][0] != "timeout":
+                # one-letter (one-byte) names are short options, longer ones long options, each addressing its variable:
+                # the line that gives one declared name, under [OPTIONS], is accepted
+                ctx.violation("declaration", "declarations %r: the line %r, which addresses a declared option by one of its names, is "
+                              "not accepted: %r" % ([d["name"] for d in c["root"]["decls"]], c["argv"], a["outcome"]), case=c)
             elif c["argv"] and accepted(a):
                 # every listed name addresses the same variable
                 tok = c["argv"][0]
